@@ -16,6 +16,7 @@ import OtterVerif.Proofs.TableTrace
 import OtterVerif.Gen.CacheRead
 import OtterVerif.Gen.Deadline
 import OtterVerif.Gen.Xmath
+import OtterVerif.Gen.CalcSites
 
 namespace OtterVerif.Props.C01Refine
 open OtterVerif OtterVerif.Impl.Table OtterVerif.Proofs.TableRefine
@@ -165,6 +166,33 @@ theorem c12_gen_guards (cur d : BitVec 64) (a b : Bool) :
     Gen.CacheRead.cache_newNode_c0 a b = (a && b) ∧ Gen.CacheRead.cache_newNode_c1 a b = (a && b) ∧
     Gen.CacheRead.cache_newNode_a1 = 9223372036854775807#64 ∧ Gen.CacheRead.cache_newNode_a3 = 9223372036854775807#64 :=
   ⟨rfl, rfl, rfl, rfl, rfl, rfl, rfl, rfl, rfl, rfl⟩
+
+/-- what `cfgOf` assumes about the library's built-in calculators is what expiry_calculator.go / refresh_calculator.go say
+    (regenerated): "creating" keeps the deadline on update and read by answering with the entry's current duration, "writing"
+    keeps it on read only, "accessing" never; the refresh calculators keep it after a reload failure, "creating" also after an
+    update and a reload; and the current duration is `ExpiresAtNano - SnapshotAtNano` / `RefreshableAtNano - SnapshotAtNano` in
+    int64 arithmetic -/
+theorem c12_gen_builtin_calculators (f cur e r snap : BitVec 64) :
+    (Gen.CalcSites.varExpiryCreating_ExpireAfterCreate_r0 f = f ∧ Gen.CalcSites.varExpiryCreating_ExpireAfterUpdate_r0 cur = cur ∧
+     Gen.CalcSites.varExpiryCreating_ExpireAfterRead_r0 cur = cur) ∧
+    (Gen.CalcSites.varExpiryWriting_ExpireAfterCreate_r0 f = f ∧ Gen.CalcSites.varExpiryWriting_ExpireAfterUpdate_r0 f = f ∧
+     Gen.CalcSites.varExpiryWriting_ExpireAfterRead_r0 cur = cur) ∧
+    (Gen.CalcSites.varExpiryAccessing_ExpireAfterCreate_r0 f = f ∧ Gen.CalcSites.varExpiryAccessing_ExpireAfterUpdate_r0 f = f ∧
+     Gen.CalcSites.varExpiryAccessing_ExpireAfterRead_r0 f = f) ∧
+    (Gen.CalcSites.varRefreshCreating_RefreshAfterCreate_r0 f = f ∧ Gen.CalcSites.varRefreshCreating_RefreshAfterUpdate_r0 cur = cur ∧
+     Gen.CalcSites.varRefreshCreating_RefreshAfterReload_r0 cur = cur ∧ Gen.CalcSites.varRefreshCreating_RefreshAfterReloadFailure_r0 cur = cur) ∧
+    (Gen.CalcSites.varRefreshWriting_RefreshAfterCreate_r0 f = f ∧ Gen.CalcSites.varRefreshWriting_RefreshAfterUpdate_r0 f = f ∧
+     Gen.CalcSites.varRefreshWriting_RefreshAfterReload_r0 f = f ∧ Gen.CalcSites.varRefreshWriting_RefreshAfterReloadFailure_r0 cur = cur) ∧
+    (Gen.CalcSites.Entry_ExpiresAfter_r0 e snap = e - snap ∧ Gen.CalcSites.Entry_RefreshableAfter_r0 r snap = r - snap) :=
+  ⟨⟨rfl, rfl, rfl⟩, ⟨rfl, rfl, rfl⟩, ⟨rfl, rfl, rfl⟩, ⟨rfl, rfl, rfl, rfl⟩, ⟨rfl, rfl, rfl, rfl⟩, ⟨rfl, rfl⟩⟩
+
+/-- the model's `durationTo` (int64 subtraction, `wrapS 64`) is that subtraction -/
+theorem c12_gen_duration_wraps (e n : Int) :
+    (BitVec.ofInt 64 e - BitVec.ofInt 64 n).toInt = durationTo e n := by
+  unfold durationTo
+  rw [BitVec.toInt_sub, BitVec.toInt_ofInt, BitVec.toInt_ofInt, wrapS64]
+  simp only [Int.bmod]
+  omega
 
 /-- F19 (repaired in /repo 0d976a3): the earlier test `xmath.Abs(int64(d - current)) > 0` is false for a difference of
     MinInt64 although the two durations differ — the witness of the defect, over the regenerated xmath.Abs -/
